@@ -23,104 +23,78 @@ theorem rdEq_iff_eq (a b : Rd) : rdEq a b = true ↔ a = b := by
   cases a; cases b
   simp
 
+theorem digCmp_lt (x y : Bytes) : digCmp x y < 0 ↔ x < y := by
+  unfold digCmp
+  have hr := NameOrder.cmpBytes_range x y
+  have hlt := NameOrder.cmpBytes_lt x y
+  have heq := NameOrder.cmpBytes_eq x y
+  by_cases e : x = y
+  · subst e
+    have : ¬ x < x := List.lt_irrefl _
+    simp [this]
+  · simp only [e, if_false]
+    split
+    · constructor
+      · intro h0; omega
+      · intro h1; have := hlt.2 h1; omega
+    · constructor
+      · intro _
+        apply hlt.1
+        rcases hr with r | r | r
+        · omega
+        · exact absurd (heq.1 r) e
+        · omega
+      · intro _; omega
+
+theorem digCmp_eq (x y : Bytes) : digCmp x y = 0 ↔ x = y := by
+  unfold digCmp
+  by_cases e : x = y
+  · simp [e]
+  · simp only [e, if_false, iff_false]
+    split <;> omega
+
+theorem digCmp_gt (x y : Bytes) : digCmp x y > 0 ↔ y < x := by
+  unfold digCmp
+  have hr := NameOrder.cmpBytes_range x y
+  have hgt := NameOrder.cmpBytes_gt x y
+  by_cases e : x = y
+  · subst e
+    have : ¬ x < x := List.lt_irrefl _
+    simp [this]
+  · simp only [e, if_false]
+    split
+    · rename_i hc
+      constructor
+      · intro _; exact hgt.1 hc
+      · intro _; omega
+    · rename_i hc
+      constructor
+      · intro h0; omega
+      · intro h1; exact absurd (hgt.2 h1) hc
+
 /-- specification of record order: relative records first, then octet order of the canonical encoding -/
 def rdLt (a b : Rd) : Prop := (a.rel = true ∧ b.rel = false) ∨ (a.rel = b.rel ∧ a.dig < b.dig)
 
 theorem rdCmp_lt (a b : Rd) : rdCmp a b < 0 ↔ rdLt a b := by
   unfold rdCmp rdLt
-  by_cases h : a.rel = b.rel
-  · simp only [h, bne_self_eq_false, Bool.false_eq_true, if_false, true_and]
-    by_cases e : a.dig = b.dig
-    · simp only [e, if_true]
-      have : ¬ b.dig < b.dig := List.lt_irrefl _
-      constructor
-      · intro h0; omega
-      · rintro (⟨h1, h2⟩ | h1)
-        · rw [h] at h1; rw [h1] at h2; cases h2
-        · exact absurd h1 this
-    · simp only [e, if_false]
-      have hr := NameOrder.cmpBytes_range a.dig b.dig
-      have hlt := NameOrder.cmpBytes_lt a.dig b.dig
-      have hgt := NameOrder.cmpBytes_gt a.dig b.dig
-      have heq := NameOrder.cmpBytes_eq a.dig b.dig
-      split
-      · rename_i hc
-        constructor
-        · intro h0; omega
-        · rintro (⟨h1, h2⟩ | h1)
-          · rw [h] at h1; rw [h1] at h2; cases h2
-          · have := hlt.2 h1; omega
-      · rename_i hc
-        constructor
-        · intro _
-          right
-          apply hlt.1
-          rcases hr with r | r | r
-          · omega
-          · exact absurd (heq.1 r) e
-          · omega
-        · intro _; omega
-  · have hne : (a.rel != b.rel) = true := by simp [h]
-    simp only [hne, if_true]
-    cases ha : a.rel <;> cases hb : b.rel <;> simp_all
+  have := digCmp_lt a.dig b.dig
+  cases ha : a.rel <;> cases hb : b.rel <;> simp [this]
 
 theorem rdCmp_eq (a b : Rd) : rdCmp a b = 0 ↔ a.rel = b.rel ∧ a.dig = b.dig := by
   unfold rdCmp
-  by_cases h : a.rel = b.rel
-  · simp only [h, bne_self_eq_false, Bool.false_eq_true, if_false, true_and]
-    by_cases e : a.dig = b.dig
-    · simp [e]
-    · simp only [e, if_false, iff_false]
-      split <;> omega
-  · have hne : (a.rel != b.rel) = true := by simp [h]
-    simp only [hne, if_true, h, false_and, iff_false]
-    split <;> omega
+  have := digCmp_eq a.dig b.dig
+  cases ha : a.rel <;> cases hb : b.rel <;> simp [this]
 
 theorem rdCmp_gt (a b : Rd) : rdCmp a b > 0 ↔ rdLt b a := by
-  have h1 := rdCmp_lt a b
-  have h2 := rdCmp_eq a b
-  have h3 := rdCmp_lt b a
-  -- trichotomy of the specification
-  unfold rdLt at *
-  constructor
-  · intro h
-    have n1 : ¬ ((a.rel = true ∧ b.rel = false) ∨ (a.rel = b.rel ∧ a.dig < b.dig)) := fun x => by
-      have := h1.2 x; omega
-    have n2 : ¬ (a.rel = b.rel ∧ a.dig = b.dig) := fun x => by have := h2.2 x; omega
-    by_cases hr : a.rel = b.rel
-    · right
-      refine ⟨hr.symm, ?_⟩
-      have hlt : ¬ a.dig < b.dig := fun x => n1 (Or.inr ⟨hr, x⟩)
-      have hne : a.dig ≠ b.dig := fun x => n2 ⟨hr, x⟩
-      have := NameOrder.cmpBytes_range a.dig b.dig
-      have := NameOrder.cmpBytes_lt a.dig b.dig
-      have := NameOrder.cmpBytes_eq a.dig b.dig
-      have := NameOrder.cmpBytes_gt a.dig b.dig
-      apply (NameOrder.cmpBytes_gt a.dig b.dig).1
-      rcases NameOrder.cmpBytes_range a.dig b.dig with r | r | r
-      · exact absurd ((NameOrder.cmpBytes_lt a.dig b.dig).1 (by omega)) hlt
-      · exact absurd ((NameOrder.cmpBytes_eq a.dig b.dig).1 r) hne
-      · omega
-    · left
-      cases ha : a.rel <;> cases hb : b.rel <;> simp_all
-  · intro h
-    have : rdCmp b a < 0 := h3.2 h
-    -- a < b and a = b are excluded by asymmetry / irreflexivity of the specification
-    have n1 : ¬ rdCmp a b < 0 := by
-      intro x
-      have hx := h1.1 x
-      rcases h with ⟨p, q⟩ | ⟨p, q⟩ <;> rcases hx with ⟨p', q'⟩ | ⟨p', q'⟩
-      · rw [p'] at q; cases q
-      · rw [p'] at p; rw [p] at q; cases q
-      · rw [← p] at p'; rw [p'] at q'; cases q'
-      · exact List.lt_asymm q q'
-    have n2 : ¬ rdCmp a b = 0 := by
-      intro x
-      obtain ⟨p', q'⟩ := h2.1 x
-      rcases h with ⟨p, q⟩ | ⟨p, q⟩
-      · rw [p'] at q; rw [p] at q; cases q
-      · rw [q'] at q; exact List.lt_irrefl _ q
-    omega
+  unfold rdCmp rdLt
+  have := digCmp_gt a.dig b.dig
+  cases ha : a.rel <;> cases hb : b.rel <;> simp [this]
+
+theorem rdLt_irrefl (a : Rd) : ¬ rdLt a a := by
+  unfold rdLt
+  rintro (⟨p, q⟩ | ⟨_, q⟩)
+  · rw [p] at q; cases q
+  · exact List.lt_irrefl _ q
 
 theorem rdLt_trans {a b c : Rd} (h1 : rdLt a b) (h2 : rdLt b c) : rdLt a c := by
   unfold rdLt at *
@@ -130,12 +104,9 @@ theorem rdLt_trans {a b c : Rd} (h1 : rdLt a b) (h2 : rdLt b c) : rdLt a c := by
   · left; exact ⟨p ▸ p', q'⟩
   · right; exact ⟨p.trans p', List.lt_trans q q'⟩
 
-/-! ## Rdataset.add -/
+/-! ## Rdataset.add, step by step -/
 
-/-- invariant of an rdataset: duplicate-free, and every record has the set's class and type -/
-def WfRds (s : Rds) : Prop := s.items.Nodup ∧ ∀ r ∈ s.items, r.cls = s.cls ∧ r.typ = s.typ
-
-theorem updateTtl_items (s : Rds) (t : Nat) : (updateTtl s t).items = s.items ∧
+theorem updateTtl_fields (s : Rds) (t : Nat) : (updateTtl s t).items = s.items ∧
     (updateTtl s t).cls = s.cls ∧ (updateTtl s t).typ = s.typ ∧ (updateTtl s t).covers = s.covers := by
   unfold updateTtl
   split
@@ -153,13 +124,38 @@ theorem updateTtl_ttl (s : Rds) (t : Nat) :
     · simp only; omega
     · omega
 
+theorem mergeTtl_fields (s : Rds) (ttl : Option Nat) : (mergeTtl s ttl).items = s.items ∧
+    (mergeTtl s ttl).cls = s.cls ∧ (mergeTtl s ttl).typ = s.typ ∧ (mergeTtl s ttl).covers = s.covers := by
+  cases ttl with
+  | none => exact ⟨rfl, rfl, rfl, rfl⟩
+  | some t => exact updateTtl_fields s t
+
+theorem coversStep_fields (s : Rds) (rd : Rd) : (coversStep s rd).1.items = s.items ∧
+    (coversStep s rd).1.cls = s.cls ∧ (coversStep s rd).1.typ = s.typ ∧ (coversStep s rd).1.ttl = s.ttl := by
+  unfold coversStep
+  split
+  · split
+    · simp
+    · split <;> simp
+  · simp
+
+theorem insertStep_fields (sing : List Nat) (s : Rds) (rd : Rd) :
+    (insertStep sing s rd).cls = s.cls ∧ (insertStep sing s rd).typ = s.typ ∧
+    (insertStep sing s rd).covers = s.covers ∧ (insertStep sing s rd).ttl = s.ttl ∧
+    (insertStep sing s rd).items =
+      (if rd.typ ∈ sing ∧ s.items.length > 0 then [rd] else SetAlg.add s.items rd) := by
+  unfold insertStep
+  by_cases h : rd.typ ∈ sing ∧ s.items.length > 0
+  · simp [h, SetAlg.add]
+  · simp [h]
+
 /-- a record of another class or type is refused and nothing changes -/
 theorem rdsAdd_incompatible (sing : List Nat) (s : Rds) (rd : Rd) (ttl : Option Nat)
     (h : s.cls ≠ rd.cls ∨ s.typ ≠ rd.typ) : rdsAdd sing s rd ttl = (s, some .incompatibleTypes) := by
   unfold rdsAdd
   simp [h]
 
-/-- a signature covering another type is refused; the records are unchanged (the TTL has already been merged) -/
+/-- a signature covering another type is refused; records and `covers` are unchanged -/
 theorem rdsAdd_differingCovers (sing : List Nat) (s : Rds) (rd : Rd) (ttl : Option Nat)
     (hc : s.cls = rd.cls) (ht : s.typ = rd.typ) (hsig : s.typ = 46 ∨ s.typ = 24)
     (hne : ¬ (s.items = [] ∧ s.covers = 0)) (hcov : s.covers ≠ rd.covers) :
@@ -168,130 +164,309 @@ theorem rdsAdd_differingCovers (sing : List Nat) (s : Rds) (rd : Rd) (ttl : Opti
   unfold rdsAdd
   have h0 : ¬ (s.cls ≠ rd.cls ∨ s.typ ≠ rd.typ) := by simp [hc, ht]
   simp only [h0, if_false]
-  cases ttl with
-  | none =>
-    simp only
-    have hl : ¬ (s.items.length = 0 ∧ s.covers = 0) := by
-      rintro ⟨a, b⟩; exact hne ⟨List.length_eq_zero_iff.1 a, b⟩
-    simp [hsig, hl, hcov]
-  | some t =>
-    simp only
-    obtain ⟨e1, _, e3, e4⟩ := updateTtl_items s t
-    have hl : ¬ ((updateTtl s t).items.length = 0 ∧ (updateTtl s t).covers = 0) := by
+  obtain ⟨e1, _, e3, e4⟩ := mergeTtl_fields s ttl
+  have hcs : coversStep (mergeTtl s ttl) rd = (mergeTtl s ttl, some .differingCovers) := by
+    unfold coversStep
+    have hl : ¬ ((mergeTtl s ttl).items.length = 0 ∧ (mergeTtl s ttl).covers = 0) := by
       rw [e1, e4]; rintro ⟨a, b⟩; exact hne ⟨List.length_eq_zero_iff.1 a, b⟩
-    have hsig' : (updateTtl s t).typ = 46 ∨ (updateTtl s t).typ = 24 := by rw [e3]; exact hsig
-    have hcov' : (updateTtl s t).covers ≠ rd.covers := by rw [e4]; exact hcov
-    simp [hsig', hl, hcov', e1, e4]
+    have hsig' : (mergeTtl s ttl).typ = 46 ∨ (mergeTtl s ttl).typ = 24 := by rw [e3]; exact hsig
+    have hcov' : (mergeTtl s ttl).covers ≠ rd.covers := by rw [e4]; exact hcov
+    rw [if_pos hsig', if_neg hl, if_pos hcov']
+  rw [hcs]
+  exact ⟨rfl, e1, e4⟩
 
-/-- what a successful `add` does to the records, for types other than SIG/RRSIG -/
+/-- a successful `add` to a set whose type is not SIG/RRSIG -/
 theorem rdsAdd_ok (sing : List Nat) (s : Rds) (rd : Rd) (ttl : Option Nat)
     (hc : s.cls = rd.cls) (ht : s.typ = rd.typ) (hns : ¬ (s.typ = 46 ∨ s.typ = 24)) :
-    (rdsAdd sing s rd ttl).2 = none ∧
-      (rdsAdd sing s rd ttl).1.items =
-        (if rd.typ ∈ sing ∧ s.items.length > 0 then [rd] else SetAlg.add s.items rd) ∧
-      (rdsAdd sing s rd ttl).1.cls = s.cls ∧ (rdsAdd sing s rd ttl).1.typ = s.typ ∧
-      (rdsAdd sing s rd ttl).1.covers = s.covers ∧
-      (rdsAdd sing s rd ttl).1.ttl = (match ttl with | some t => (updateTtl s t).ttl | none => s.ttl) := by
+    rdsAdd sing s rd ttl = (insertStep sing (mergeTtl s ttl) rd, none) := by
   unfold rdsAdd
   have h0 : ¬ (s.cls ≠ rd.cls ∨ s.typ ≠ rd.typ) := by simp [hc, ht]
   simp only [h0, if_false]
-  cases ttl with
-  | none =>
-    simp only [hns, if_false]
-    by_cases hs : rd.typ ∈ sing ∧ s.items.length > 0
-    · simp [hs, SetAlg.add]
-    · simp [hs]
-  | some t =>
-    obtain ⟨e1, e2, e3, e4⟩ := updateTtl_items s t
-    have hns' : ¬ ((updateTtl s t).typ = 46 ∨ (updateTtl s t).typ = 24) := by rw [e3]; exact hns
-    simp only [hns', if_false, e1]
-    by_cases hs : rd.typ ∈ sing ∧ s.items.length > 0
-    · simp [hs, SetAlg.add, e2, e3, e4]
-    · simp [hs, e1, e2, e3, e4]
+  have hcs : coversStep (mergeTtl s ttl) rd = (mergeTtl s ttl, none) := by
+    unfold coversStep
+    have : ¬ ((mergeTtl s ttl).typ = 46 ∨ (mergeTtl s ttl).typ = 24) := by
+      rw [(mergeTtl_fields s ttl).2.2.1]; exact hns
+    simp [this]
+  rw [hcs]
 
-/-- `add` keeps the invariant (whatever the outcome) -/
-theorem rdsAdd_wf (sing : List Nat) (s : Rds) (rd : Rd) (ttl : Option Nat) (h : WfRds s) :
-    WfRds (rdsAdd sing s rd ttl).1 ∧ (rdsAdd sing s rd ttl).1.cls = s.cls ∧ (rdsAdd sing s rd ttl).1.typ = s.typ := by
+/-- whatever the outcome, `add` leaves class and type alone, and its TTL is the merged one (or untouched) -/
+theorem rdsAdd_fields (sing : List Nat) (s : Rds) (rd : Rd) (ttl : Option Nat) :
+    (rdsAdd sing s rd ttl).1.cls = s.cls ∧ (rdsAdd sing s rd ttl).1.typ = s.typ ∧
+    (rdsAdd sing s rd ttl).1.ttl =
+      (if s.cls ≠ rd.cls ∨ s.typ ≠ rd.typ then s.ttl else (mergeTtl s ttl).ttl) := by
   unfold rdsAdd
   by_cases h0 : s.cls ≠ rd.cls ∨ s.typ ≠ rd.typ
-  · simp only [h0, if_true]; exact ⟨h, rfl, rfl⟩
+  · simp [h0]
   · simp only [h0, if_false]
-    have hc : s.cls = rd.cls := by
-      apply Classical.byContradiction; intro x; exact h0 (Or.inl x)
-    have ht : s.typ = rd.typ := by
-      apply Classical.byContradiction; intro x; exact h0 (Or.inr x)
-    -- generalise over the state after the optional TTL merge
-    have key : ∀ s1 : Rds, s1.items = s.items → s1.cls = s.cls → s1.typ = s.typ →
-        let step2 : RdsR :=
-          if s1.typ = 46 ∨ s1.typ = 24 then
-            if s1.items.length = 0 ∧ s1.covers = 0 then ({ s1 with covers := rd.covers }, none)
-            else if s1.covers ≠ rd.covers then (s1, some .differingCovers)
-            else (s1, none)
-          else (s1, none)
-        WfRds (match step2 with
-          | (s2, some e) => ((s2, some e) : RdsR)
-          | (s2, none) =>
-            let s3 := if rd.typ ∈ sing ∧ s2.items.length > 0 then { s2 with items := [] } else s2
-            ({ s3 with items := SetAlg.add s3.items rd }, none)).1 ∧
-        (match step2 with
-          | (s2, some e) => ((s2, some e) : RdsR)
-          | (s2, none) =>
-            let s3 := if rd.typ ∈ sing ∧ s2.items.length > 0 then { s2 with items := [] } else s2
-            ({ s3 with items := SetAlg.add s3.items rd }, none)).1.cls = s.cls ∧
-        (match step2 with
-          | (s2, some e) => ((s2, some e) : RdsR)
-          | (s2, none) =>
-            let s3 := if rd.typ ∈ sing ∧ s2.items.length > 0 then { s2 with items := [] } else s2
-            ({ s3 with items := SetAlg.add s3.items rd }, none)).1.typ = s.typ := by
-      intro s1 hi hcl hty
-      have hwf1 : WfRds s1 := by
-        unfold WfRds; rw [hi, hcl, hty]; exact h
-      have addwf : ∀ s2 : Rds, WfRds s2 → s2.cls = s.cls → s2.typ = s.typ →
-          WfRds ({ (if rd.typ ∈ sing ∧ s2.items.length > 0 then { s2 with items := [] } else s2) with
-            items := SetAlg.add (if rd.typ ∈ sing ∧ s2.items.length > 0 then { s2 with items := [] } else s2).items rd }) := by
-        intro s2 hw2 c2 t2
-        by_cases hs : rd.typ ∈ sing ∧ s2.items.length > 0
-        · simp only [hs, and_self, if_true]
-          refine ⟨by simp [SetAlg.add], ?_⟩
-          intro r hr
-          simp [SetAlg.add] at hr
-          subst hr
-          simp only
-          exact ⟨(c2.trans hc).symm, (t2.trans ht).symm⟩
-        · simp only [hs, if_false]
-          refine ⟨nodup_add _ _ hw2.1, ?_⟩
-          intro r hr
-          rw [mem_add] at hr
-          rcases hr with hr | hr
-          · exact hw2.2 r hr
-          · subst hr; exact ⟨(c2.trans hc).symm, (t2.trans ht).symm⟩
-      simp only
-      by_cases hsig : s1.typ = 46 ∨ s1.typ = 24
-      · simp only [hsig, if_true]
-        by_cases he : s1.items.length = 0 ∧ s1.covers = 0
-        · simp only [he, and_self, if_true]
-          have hw : WfRds { s1 with covers := rd.covers } := hwf1
-          have := addwf { s1 with covers := rd.covers } hw hcl hty
-          refine ⟨this, ?_, ?_⟩
-          · split <;> simp [hcl]
-          · split <;> simp [hty]
-        · simp only [he, if_false]
-          by_cases hcv : s1.covers ≠ rd.covers
-          · simp only [hcv, if_true]
-            exact ⟨hwf1, hcl, hty⟩
-          · simp only [hcv, if_false]
-            refine ⟨addwf s1 hwf1 hcl hty, ?_, ?_⟩
-            · split <;> simp [hcl]
-            · split <;> simp [hty]
-      · simp only [hsig, if_false]
-        refine ⟨addwf s1 hwf1 hcl hty, ?_, ?_⟩
-        · split <;> simp [hcl]
-        · split <;> simp [hty]
-    cases ttl with
-    | none => exact key s rfl rfl rfl
-    | some t =>
-      obtain ⟨e1, e2, e3, _⟩ := updateTtl_items s t
-      exact key (updateTtl s t) e1 e2 e3
+    obtain ⟨_, e2, e3, _⟩ := mergeTtl_fields s ttl
+    obtain ⟨_, c2, c3, c4⟩ := coversStep_fields (mergeTtl s ttl) rd
+    cases hcs : coversStep (mergeTtl s ttl) rd with
+    | mk s2 err =>
+      rw [hcs] at c2 c3 c4
+      simp only at c2 c3 c4
+      cases err with
+      | some e => exact ⟨c2.trans e2, c3.trans e3, c4⟩
+      | none =>
+        obtain ⟨i1, i2, _, i4, _⟩ := insertStep_fields sing s2 rd
+        exact ⟨i1.trans (c2.trans e2), i2.trans (c3.trans e3), i4.trans c4⟩
+
+/-- invariant of an rdataset: duplicate-free, and every record has the set's class and type -/
+def WfRds (s : Rds) : Prop := s.items.Nodup ∧ ∀ r ∈ s.items, r.cls = s.cls ∧ r.typ = s.typ
+
+theorem insertStep_wf (sing : List Nat) (s : Rds) (rd : Rd) (h : WfRds s)
+    (hc : s.cls = rd.cls) (ht : s.typ = rd.typ) : WfRds (insertStep sing s rd) := by
+  obtain ⟨i1, i2, _, _, i5⟩ := insertStep_fields sing s rd
+  unfold WfRds
+  rw [i1, i2, i5]
+  by_cases hs : rd.typ ∈ sing ∧ s.items.length > 0
+  · simp only [hs, and_self, if_true]
+    refine ⟨by simp, ?_⟩
+    intro r hr
+    simp at hr
+    subst hr
+    exact ⟨hc.symm, ht.symm⟩
+  · simp only [hs, if_false]
+    refine ⟨nodup_add _ _ h.1, ?_⟩
+    intro r hr
+    rw [mem_add] at hr
+    rcases hr with hr | hr
+    · exact h.2 r hr
+    · subst hr; exact ⟨hc.symm, ht.symm⟩
+
+theorem wf_of_fields (s s' : Rds) (h : WfRds s) (e1 : s'.items = s.items) (e2 : s'.cls = s.cls)
+    (e3 : s'.typ = s.typ) : WfRds s' := by
+  unfold WfRds; rw [e1, e2, e3]; exact h
+
+/-- `add` keeps the invariant whatever the outcome -/
+theorem rdsAdd_wf (sing : List Nat) (s : Rds) (rd : Rd) (ttl : Option Nat) (h : WfRds s) :
+    WfRds (rdsAdd sing s rd ttl).1 := by
+  unfold rdsAdd
+  by_cases h0 : s.cls ≠ rd.cls ∨ s.typ ≠ rd.typ
+  · simp only [h0, if_true]; exact h
+  · simp only [h0, if_false]
+    have hc : s.cls = rd.cls := Classical.byContradiction fun x => h0 (Or.inl x)
+    have ht : s.typ = rd.typ := Classical.byContradiction fun x => h0 (Or.inr x)
+    obtain ⟨e1, e2, e3, _⟩ := mergeTtl_fields s ttl
+    obtain ⟨c1, c2, c3, _⟩ := coversStep_fields (mergeTtl s ttl) rd
+    have hw2 : WfRds (coversStep (mergeTtl s ttl) rd).1 :=
+      wf_of_fields s _ h (c1.trans e1) (c2.trans e2) (c3.trans e3)
+    cases hcs : coversStep (mergeTtl s ttl) rd with
+    | mk s2 err =>
+      rw [hcs] at hw2 c2 c3
+      simp only at hw2 c2 c3
+      cases err with
+      | some e => exact hw2
+      | none => exact insertStep_wf sing s2 rd hw2 ((c2.trans e2).trans hc) ((c3.trans e3).trans ht)
+
+/-! ## the loops that dispatch to the overridden `add` -/
+
+theorem rdsAddAll_fields (sing : List Nat) (s : Rds) (xs : List Rd) :
+    (rdsAddAll sing s xs).1.cls = s.cls ∧ (rdsAddAll sing s xs).1.typ = s.typ ∧
+      (rdsAddAll sing s xs).1.ttl = s.ttl := by
+  induction xs generalizing s with
+  | nil => exact ⟨rfl, rfl, rfl⟩
+  | cons x xs ih =>
+    obtain ⟨a1, a2, a3⟩ := rdsAdd_fields sing s x none
+    have a3' : (rdsAdd sing s x none).1.ttl = s.ttl := by
+      rw [a3]; split <;> rfl
+    unfold rdsAddAll
+    cases hadd : rdsAdd sing s x none with
+    | mk s' err =>
+      rw [hadd] at a1 a2 a3'
+      simp only at a1 a2 a3'
+      cases err with
+      | some e => exact ⟨a1, a2, a3'⟩
+      | none =>
+        obtain ⟨b1, b2, b3⟩ := ih s'
+        exact ⟨b1.trans a1, b2.trans a2, b3.trans a3'⟩
+
+theorem rdsAddAll_wf (sing : List Nat) (s : Rds) (xs : List Rd) (h : WfRds s) :
+    WfRds (rdsAddAll sing s xs).1 := by
+  induction xs generalizing s with
+  | nil => exact h
+  | cons x xs ih =>
+    have hw := rdsAdd_wf sing s x none h
+    unfold rdsAddAll
+    cases hadd : rdsAdd sing s x none with
+    | mk s' err =>
+      rw [hadd] at hw
+      cases err with
+      | some e => exact hw
+      | none => exact ih s' hw
+
+/-- for a type that is neither a singleton nor a signature, adding a list of records of the set's own class
+and type is exactly `Set.union_update` on the items: the overridden `add` changes nothing -/
+theorem rdsAddAll_refines (sing : List Nat) (s : Rds) (xs : List Rd)
+    (hsing : s.typ ∉ sing) (hns : ¬ (s.typ = 46 ∨ s.typ = 24))
+    (hx : ∀ r ∈ xs, r.cls = s.cls ∧ r.typ = s.typ) :
+    rdsAddAll sing s xs = ({ s with items := SetAlg.unionUpdate s.items xs }, none) := by
+  induction xs generalizing s with
+  | nil => simp [rdsAddAll, SetAlg.unionUpdate]
+  | cons x xs ih =>
+    obtain ⟨xc, xt⟩ := hx x (by simp)
+    have hadd := rdsAdd_ok sing s x none xc.symm xt.symm hns
+    obtain ⟨i1, i2, i3, i4, i5⟩ := insertStep_fields sing s x
+    have hnot : ¬ (x.typ ∈ sing ∧ s.items.length > 0) := by
+      rw [xt]; exact fun h => hsing h.1
+    simp only [hnot, if_false] at i5
+    have hs' : insertStep sing (mergeTtl s none) x = { s with items := SetAlg.add s.items x } := by
+      show insertStep sing s x = _
+      cases hh : insertStep sing s x
+      rw [hh] at i1 i2 i3 i4 i5
+      simp only at i1 i2 i3 i4 i5
+      subst i1 i2 i3 i4 i5
+      rfl
+    unfold rdsAddAll
+    rw [hadd, hs']
+    simp only
+    rw [ih { s with items := SetAlg.add s.items x } hsing hns (fun r hr => hx r (by simp [hr]))]
+    simp [SetAlg.unionUpdate]
+
+/-! ## TTL over histories -/
+
+/-- every mutating operation of an rdataset; the other operand of a binary operation is any rdataset value,
+the `…Self` constructors are the aliased calls (`self is other`) -/
+inductive Op where
+  | add (rd : Rd) (ttl : Option Nat)
+  | updateTtl (t : Nat)
+  | unionUpdate (o : Rds) | unionUpdateSelf
+  | interUpdate (o : Rds) | interUpdateSelf
+  | update (o : Rds) | updateSelf
+  | diffUpdate (o : Rds) | diffUpdateSelf
+  | symDiffUpdate (o : Rds) | symDiffUpdateSelf
+  | remove (rd : Rd) | discard (rd : Rd) | pop | clear
+  | delItem (i : Nat) | delSlice (a : Nat) (b : Option Nat) (st : Nat)
+
+/-- the state after an operation (whether or not it raised) -/
+def step (sing : List Nat) (s : Rds) : Op → Rds
+  | .add rd ttl => (rdsAdd sing s rd ttl).1
+  | .updateTtl t => updateTtl s t
+  | .unionUpdate o => (rdsUnionUpdate sing s o false).1
+  | .unionUpdateSelf => (rdsUnionUpdate sing s s true).1
+  | .interUpdate o => (rdsInterUpdate s o false).1
+  | .interUpdateSelf => (rdsInterUpdate s s true).1
+  | .update o => (rdsUpdate sing s o).1
+  | .updateSelf => (rdsUpdate sing s s).1
+  | .diffUpdate o => (rdsDiffUpdate s o false).1
+  | .diffUpdateSelf => (rdsDiffUpdate s s true).1
+  | .symDiffUpdate o => (rdsSymDiffUpdate sing s o false).1
+  | .symDiffUpdateSelf => (rdsSymDiffUpdate sing s s true).1
+  | .remove rd => (match SetAlg.remove s.items rd with | some v => { s with items := v } | none => s)
+  | .discard rd => { s with items := SetAlg.discard s.items rd }
+  | .pop => (match SetAlg.pop s.items with | some (_, v) => { s with items := v } | none => s)
+  | .clear => { s with items := [] }
+  | .delItem i => (match SetAlg.delItem s.items i with | some v => { s with items := v } | none => s)
+  | .delSlice a b st => { s with items := SetAlg.delSlice s.items a b st }
+
+/-- the TTL an operation merges into the set (the argument of the `update_ttl` call it makes), if any;
+read off the call, not off the model's state change -/
+def merged (s : Rds) : Op → Option Nat
+  | .add rd ttl => if s.cls ≠ rd.cls ∨ s.typ ≠ rd.typ then none else ttl
+  | .updateTtl t => some t
+  | .unionUpdate o => some o.ttl
+  | .unionUpdateSelf => some s.ttl
+  | .interUpdate o => some o.ttl
+  | .interUpdateSelf => some s.ttl
+  | .update o => some o.ttl
+  | .updateSelf => some s.ttl
+  | .symDiffUpdate o => some o.ttl
+  | _ => none
+
+/-- the TTLs merged since a merge last found the set empty -/
+def ghostStep (g : List Nat) (s : Rds) (op : Op) : List Nat :=
+  match merged s op with
+  | some t => if s.items = [] then [t] else t :: g
+  | none => g
+
+def run (sing : List Nat) : Rds × List Nat → List Op → Rds × List Nat
+  | p, [] => p
+  | (s, g), op :: ops => run sing (step sing s op, ghostStep g s op) ops
+
+def minOf : List Nat → Nat
+  | [] => 0
+  | [x] => x
+  | x :: y :: r => min x (minOf (y :: r))
+
+theorem minOf_cons (t : Nat) (g : List Nat) (h : g ≠ []) : minOf (t :: g) = min t (minOf g) := by
+  cases g with
+  | nil => exact absurd rfl h
+  | cons y r => rfl
+
+theorem step_ttl (sing : List Nat) (s : Rds) (op : Op) :
+    (step sing s op).ttl = (match merged s op with | some t => (updateTtl s t).ttl | none => s.ttl) := by
+  cases op with
+  | add rd ttl =>
+    simp only [step, merged]
+    rw [(rdsAdd_fields sing s rd ttl).2.2]
+    by_cases h0 : s.cls ≠ rd.cls ∨ s.typ ≠ rd.typ
+    · simp [h0]
+    · simp only [h0, if_false]
+      cases ttl <;> rfl
+  | updateTtl t => rfl
+  | unionUpdate o =>
+    simp only [step, merged, rdsUnionUpdate, Bool.false_eq_true, if_false]
+    exact (rdsAddAll_fields sing _ _).2.2
+  | unionUpdateSelf => simp [step, merged, rdsUnionUpdate]
+  | interUpdate o => simp [step, merged, rdsInterUpdate]
+  | interUpdateSelf => simp [step, merged, rdsInterUpdate]
+  | update o =>
+    simp only [step, merged, rdsUpdate]
+    exact (rdsAddAll_fields sing _ _).2.2
+  | updateSelf =>
+    simp only [step, merged, rdsUpdate]
+    exact (rdsAddAll_fields sing _ _).2.2
+  | diffUpdate o => simp [step, merged, rdsDiffUpdate]
+  | diffUpdateSelf => simp [step, merged, rdsDiffUpdate]
+  | symDiffUpdate o =>
+    simp only [step, merged, rdsSymDiffUpdate, Bool.false_eq_true, if_false]
+    have hu : (rdsUnionUpdate sing s o false).1.ttl = (updateTtl s o.ttl).ttl := by
+      simp only [rdsUnionUpdate, Bool.false_eq_true, if_false]
+      exact (rdsAddAll_fields sing _ _).2.2
+    cases hh : rdsUnionUpdate sing s o false with
+    | mk s1 err =>
+      rw [hh] at hu
+      cases err with
+      | some e => exact hu
+      | none => simpa [rdsDiffUpdate] using hu
+  | symDiffUpdateSelf => simp [step, merged, rdsSymDiffUpdate]
+  | remove rd =>
+    simp only [step, merged]
+    split <;> rfl
+  | discard rd => rfl
+  | pop =>
+    simp only [step, merged]
+    split <;> rfl
+  | clear => rfl
+  | delItem i =>
+    simp only [step, merged]
+    split <;> rfl
+  | delSlice a b st => rfl
+
+/-- the invariant: the TTL is the minimum of the TTLs merged since a merge last found the set empty -/
+theorem ttl_invariant (sing : List Nat) (s : Rds) (g : List Nat) (op : Op)
+    (h : g ≠ [] ∧ s.ttl = minOf g) :
+    ghostStep g s op ≠ [] ∧ (step sing s op).ttl = minOf (ghostStep g s op) := by
+  rw [step_ttl]
+  unfold ghostStep
+  cases hm : merged s op with
+  | none => exact h
+  | some t =>
+    simp only
+    rw [updateTtl_ttl]
+    by_cases he : s.items = []
+    · simp [he, minOf]
+    · simp only [he, if_false]
+      refine ⟨by simp, ?_⟩
+      rw [minOf_cons t g h.1, h.2]
+
+theorem run_ttl (sing : List Nat) (ops : List Op) (s : Rds) (g : List Nat)
+    (h : g ≠ [] ∧ s.ttl = minOf g) :
+    (run sing (s, g) ops).2 ≠ [] ∧ (run sing (s, g) ops).1.ttl = minOf (run sing (s, g) ops).2 := by
+  induction ops generalizing s g with
+  | nil => exact h
+  | cons op ops ih =>
+    simp only [run]
+    exact ih _ _ (ttl_invariant sing s g op h)
 
 end RdsProofs
 end Model
